@@ -160,8 +160,66 @@ def _run(fn, *args):
     return "\n".join(L) + "\n"
 
 
+CELL_MODULE = '''
+from ovld import Ovld, recurse, call_next
+
+# a rewritten method stays a closure over the SAME variables as its source: writes through nonlocal are seen by the other closures of the
+# factory, and later rebinding by the factory is seen by the method
+def _factory(K):
+    def A(x: int):
+        nonlocal K
+        K += 1
+        return (K, recurse(x - 1)) if x > 0 else call_next(x)
+
+    def peek():
+        return K
+
+    def poke(v):
+        nonlocal K
+        K = v
+    return A, peek, poke
+
+
+A, PEEK, POKE = _factory(100)
+
+
+def B(x: object):
+    return ("B", x)
+
+
+OV = Ovld()
+OV.register(A)
+OV.register(B)
+F = OV.dispatch
+for _a in (0, 1, "a"):
+    F(_a)
+
+
+def check_cells(x: int, v: int) -> bool:
+    """
+    pre: 0 <= x <= 3
+    post: _
+    """
+    POKE(v)
+    r = F(x)
+    # A runs x + 1 times (x, x-1, ..., 0): the shared variable ends at v + x + 1 and the outermost entry saw v + 1
+    return PEEK() == v + x + 1 and (r[0] == v + 1 if x > 0 else r == ("B", 0))
+
+
+def reach_cells(x: int, v: int) -> bool:
+    """
+    pre: 0 <= x <= 3
+    post: not _
+    """
+    POKE(v)
+    return F(x)[0] == v + 1 and x == 2
+'''
+
+
 def gen_harnesses(tier, seed):
-    return [(f"c09_{name}", module_for(name, npos, body, tier), dict(body=name, lines=body)) for name, npos, body in BODIES]
+    hs = [(f"c09_{name}", module_for(name, npos, body, tier), dict(body=name, lines=body)) for name, npos, body in BODIES]
+    hs.append(("c09_shared_closure_cells", CELL_MODULE, dict(body="shared_closure_cells", lines=["nonlocal K", "K += 1"])))
+    return hs
 
 
 def replay(rec):
